@@ -359,6 +359,7 @@ def run_dataflow(cfg: DCfg, c: Ctx) -> Any:
             sh = M.dags[st[1]][2]
             npool += 1 if sh[0] == "single" else 2
     ret = g.draw_ret(npool)
+    c.heavy()
     spec = {"stmts": stmts, "ret": ret, "supplied_b": supplied_b, "flavour": flavour, "deviations": list(H.log),
             "inner": {k: (v[2], v[3]) for k, v in M.dags.items()}}
 
